@@ -235,6 +235,12 @@ type harness struct {
 
 var hung = false
 
+// longWaits counts waits that ran into the (very generous) deadline: each one is reported; after a few
+// of them the rest of this process's cases is skipped instead of waiting for the same failure again.
+var longWaits = 0
+
+func givenUp() bool { return longWaits >= 3 }
+
 func baseCtx() context.Context {
 	ctx := variable.NewVariableContext(context.Background())
 	_ = variable.Set(ctx, types.VariableListenerName, "c07")
@@ -307,6 +313,7 @@ func (h *harness) feed(chunk []byte, want int) string {
 			case <-h.s.notify:
 			case <-time.After(2 * time.Millisecond):
 			case <-dl:
+				longWaits++
 				return ""
 			case <-h.cc.done:
 				return "connection-closed"
@@ -408,6 +415,9 @@ var nruns, nfeeds int
 
 // play feeds r.all cut at `cuts` (ascending offsets, last = len) and records the trace. ref run: cls "whole".
 func (r *run) play(cls string, cuts []int, auto bool) (aborted bool) {
+	if givenUp() {
+		return true
+	}
 	tr.Emit(vh.Ev{"ev": "run", "proto": r.sp.Proto, "cls": cls, "lens": r.lens, "units": r.units, "auto": auto,
 		"conts": r.sp.Conts, "shapes": r.sp.Shapes, "cuts": cuts})
 	nruns++
